@@ -251,6 +251,19 @@ def check_chain(case):
     variants = [("left-nested", left), ("right-nested", right), ("random-bracketing", bracketings(srcs, choose)),
                 ("{} + chain", "({} + " + left + ")"), ("chain + {}", "(" + right + " + {})"),
                 ("through a local", "(local x = " + srcs[0] + "; x + " + " + ".join(srcs[1:]) + ")")]
+    # operands that are complete objects on their own are used (manifested) first and combined afterwards: whatever an object
+    # remembers from its own use (checked assertions, per-layer environments, field caches) must not leak into the combination
+    alone = util.eval_exprs([f"std.toString({s_})" for s_ in srcs], want=["typed"], fuel=1_000_000, max_stack=2000)
+    usable = [i for i, r_ in enumerate(alone) if util.is_ok(r_)]
+    if usable:
+        names = [f"op{i}" for i in range(len(srcs))]
+        binds = ", ".join(f"{n} = {s_}" for n, s_ in zip(names, srcs))
+        pre = " + ".join(f"std.length(std.toString({names[i]}))" for i in usable)
+        variants.append(("operands used first", f"(local {binds}; if {pre} >= 0 then {' + '.join(names)} else null)"))
+        rn = names[-1]
+        for nm in reversed(names[:-1]):
+            rn = "(" + nm + " + " + rn + ")"
+        variants.append(("operands used first, right-nested", f"(local {binds}; if {pre} >= 0 then {rn} else null)"))
     recs = []
     for name, e in variants:
         r = record(e)
@@ -266,7 +279,7 @@ def check_chain(case):
         if rec != base[2]:
             d0, d1 = rec_dict(base[2]), rec_dict(rec)
             diff = [k for k in sorted(set(d0) | set(d1)) if d0.get(k) != d1.get(k)]
-            sig = "identity" if "{}" in name else ("associativity" if "nested" in name or "bracketing" in name else "sharing")
+            sig = "identity" if "{}" in name else ("operand-use-leaks" if "used first" in name else "associativity" if "nested" in name or "bracketing" in name else "sharing")
             raise Violation(f"{sig}:{diff[0] if diff else '?'}", f"{base[0]} and {name} differ in {diff}: {base[1][:400]} gives {str(d0.get(diff[0]))[:200]}, {e[:400]} gives {str(d1.get(diff[0]))[:200]}")
     if rec_dict(base[2]).get("assert-failed") is not None:
         return {"nontrivial": True, "labels": ["assert-mixin-fails"], "sample": left[:400]}
